@@ -48,6 +48,9 @@ type rcluster struct {
 }
 
 func newRCluster(cfg cluster.Config, rng *rand.Rand, pol simnet.Policy) *rcluster {
+	if cfg.Silent && rng.Intn(2) == 0 {
+		cfg.PermutePicks = true // the member picker of silent mode need not list the members in ascending order
+	}
 	c := &rcluster{Cluster: cluster.New(cfg)}
 	go c.Net.RunRandom(rng, pol)
 	return c
